@@ -54,3 +54,58 @@ Fixpoint hex_digits (fuel : nat) (n : N) (acc : str) : str :=
            if n / 16 =? 0 then acc' else hex_digits f (n / 16) acc'
   end.
 Definition hex_of_N (n : N) : str := hex_digits (S (N.to_nat (N.log2 n))) n [].
+
+(* ------------------------------------------------------------------ atoms of the generated make_environ / writer definitions *)
+(* sub in s *)
+Fixpoint str_contains (sub s : str) : bool :=
+  starts_with sub s || match s with [] => false | _ :: r => str_contains sub r end.
+
+(* s.replace(a, b) for a non-empty a: leftmost, non-overlapping *)
+Fixpoint replace_go (a b : str) (skip : nat) (s : str) : str :=
+  match s with
+  | [] => []
+  | c :: r =>
+    match skip with
+    | S k => replace_go a b k r
+    | O => if starts_with a s then b ++ replace_go a b (length a - 1) r else c :: replace_go a b 0 r
+    end
+  end.
+Definition str_replace (s a b : str) : str := replace_go a b 0 s.
+Definition str_upper (s : str) : str := map ascii_upper s.     (* ASCII header names *)
+Definition str_lower (s : str) : str := map ascii_lower s.
+Definition str_strip (s : str) : str := strip uni_ws s.
+Definition nonempty_str (s : str) : bool := match s with [] => false | _ => true end.
+
+(* the environ dict restricted to its str -> str entries, in insertion order *)
+Fixpoint env_get (k : str) (env : list (str * str)) : option str :=
+  match env with [] => None | (k', v) :: r => if list_eqb k k' then Some v else env_get k r end.
+Fixpoint env_set (k v : str) (env : list (str * str)) : list (str * str) :=
+  match env with
+  | [] => [(k, v)]
+  | (k', v') :: r => if list_eqb k k' then (k, v) :: r else (k', v') :: env_set k v r
+  end.
+Definition env_get_d (k d : str) (env : list (str * str)) : str :=
+  match env_get k env with Some v => v | None => d end.
+
+(* "%s ... %d ..." % args: %s and %d take the next argument (already text) *)
+Fixpoint fmt (f : str) (args : list str) : str :=
+  match f with
+  | [] => []
+  | c :: r =>
+    if c =? 37 then
+      match r with
+      | d :: r' => if (d =? 115) || (d =? 100)
+                   then match args with a :: args' => a ++ fmt r' args' | [] => fmt r' [] end
+                   else c :: fmt r args
+      | [] => [c]
+      end
+    else c :: fmt r args
+  end.
+
+(* what run_wsgi.write emits on its first call, in source order *)
+Inductive hitem :=
+  | PStatus                       (* self.send_response(code, msg) *)
+  | PAppHeaders                   (* for key, value in headers_sent: self.send_header(key, value) *)
+  | PIfChunked (k v : str)        (* if <chunked-framing condition>: self.send_header(k, v) *)
+  | PHeader (k v : str)           (* self.send_header(k, v) *)
+  | PEnd.                         (* self.end_headers() *)
